@@ -71,6 +71,9 @@ fact("np: broadcasting (1,) with (N,)", lambda: (np.ones(1) * np.arange(3.0)).sh
 fact("np: truth value of an array with more than one element raises", lambda: raises(ValueError, lambda: bool(np.ones(2) < 2)))
 fact("np: np.power(0.0, positive) = 0, np.power(-0.0, positive) = 0", lambda: np.power(0.0, 0.5) == 0 and np.power(-0.0, 0.5) == 0)
 fact("np: np.zeros_like(1-D) / np.zeros(n) are fresh 1-D arrays of zeros of that length", lambda: (lambda b: (np.zeros_like(b).shape == b.shape and not np.zeros_like(b).any() and np.zeros_like(b).base is None and np.zeros(3).shape == (3,)))(np.arange(4.0)))
+fact("np: np.shape(1-D) is its shape, np.zeros(np.shape(b)) a fresh array of that length; a[-1:] = x writes the last entry", lambda: (lambda b: np.shape(b) == b.shape and np.zeros(np.shape(b)).shape == b.shape and (lambda z: (z.__setitem__(slice(-1, None), 7.0), z[-1] == 7.0 and z[0] == 0.0)[1])(np.zeros(3)))(np.arange(4.0)))
+fact("np: getattr(ndarray, 'ndim') is 1 for 1-D, 0 for 0-d and numpy scalars; python floats and casadi matrices have none", lambda: np.ones(2).ndim == 1 and np.array(1.0).ndim == 0 and np.float64(1.0).ndim == 0 and not hasattr(1.0, "ndim") and not hasattr(cs.SX.sym("x"), "ndim") and not hasattr(cs.DM(1), "ndim"))
+fact("np: b[...] = v overwrites the whole array in place", lambda: (lambda b, c_: (b.__setitem__(Ellipsis, np.arange(3.0)), c_[2] == 2.0)[1])(*(lambda z: (z, z))(np.zeros(3))))
 fact("np: np.full((n,), v) and np.empty((n,), float) have shape (n,)", lambda: np.full((3,), 2.0).shape == (3,) and np.empty((2,), float).shape == (2,))
 
 # ---- casadi ------------------------------------------------------------------------------------
